@@ -230,7 +230,7 @@ def leak_run(chk, seed):
     code = r'''
 import sys, os, random, json, logging, io
 sys.path.insert(0, "/verif/harness")
-os.environ["APT_MIRROR_LOGLEVEL"] = "info"
+os.environ["APT_MIRROR_LOGLEVEL"] = "debug"
 import core
 from e2e import common, runner, upstream, scenario
 from core import vloop
@@ -259,6 +259,17 @@ with open(os.path.join(w.sb.etc, "auth.conf"), "w") as fp:
 res = w.run(chooser=vloop.RandomChooser(seed))
 new = common.evolve(rng, repo)
 res2 = w.run(repos=[new], chooser=vloop.RandomChooser(seed + 1))
+# a third run in which things go wrong, so that the warning / error branches log too: upstream faults of a random class
+# and a local I/O fault (the target of a new pool file is occupied by a directory, which makes its transfer task raise)
+new3 = common.evolve(rng, new)
+store3 = w.stores([new3])[url]
+cfgd = w.cfgs[url]
+plan, _ = scenario.gen_plan(rng, rng.choice(["transient", "persistent-required", "persistent-optional"]), new3, cfgd, store3)
+have = {e[0] for e in __import__("e2e.run_e2e", fromlist=["tree"]).tree(w.sb, url)}
+fresh = sorted(p for p in scenario.referenced_pool(new3, cfgd) if p not in have)
+if fresh:
+    os.makedirs(os.path.join(runner.mirror_dir(w.sb, url), rng.choice(fresh), "occupied"), exist_ok=True)
+res3 = w.run(repos=[new3], plans={url: plan}, chooser=vloop.RandomChooser(seed + 2))
 from apt_mirror.config import Config
 from pathlib import Path
 cfg = Config(Path(w.sb.config_path))
@@ -284,7 +295,7 @@ for dp, dns, fns in os.walk(w.sb.top):
         for s in (secret_url, secret_rc):
             if s.encode() in data:
                 hits.append(["content", s, p])
-print(json.dumps({"exit": [res.exit, res2.exit], "creds": creds, "hits": hits, "loglines": len(log.splitlines()),
+print(json.dumps({"exit": [res.exit, res2.exit, res3.exit], "local_fault": bool(fresh), "creds": creds, "hits": hits, "loglines": len(log.splitlines()),
                   "files": sum(len(f) for _, _, f in os.walk(w.sb.top))}))
 w.destroy()
 '''
@@ -298,6 +309,8 @@ w.destroy()
             continue
         chk.count("leak_runs")
         chk.count("leak_run_loglines", out["loglines"])
+        chk.count("leak_runs_with_local_fault", 1 if out.get("local_fault") else 0)
+        chk.count("leak_runs_with_failed_run", 1 if out["exit"][2] != 0 else 0)
         expected_cred = ("alice" if mode == "url" else "bob")
         if not any(c[0] == expected_cred for c in out["creds"]):
             chk.violation("credentials-not-attached", {"seed": seed, "mode": mode}, f"expected {expected_cred} credentials, got {out['creds']}")
